@@ -15,6 +15,12 @@ package main
 //                              of Go packages it uses, the methods it calls on risor os.OS values
 //                              and whether every such receiver is GetOS(ctx)/os.GetDefaultOS(ctx)
 //                              of a context parameter
+//   virtualSinks : List (String × List String)
+//                              for every function of os/virtual.go, os/nil_file.go, os/buffer_file.go
+//                              and os/in_memory_file.go (the OS implementation risor ships for hosts
+//                              and the files it hands out): the OS-touching members of Go packages
+//                              its body uses (and uses of risor's own SimpleOS); functions without
+//                              any are not listed
 // Anything the generator cannot classify makes it fail loudly.
 
 import (
@@ -419,6 +425,41 @@ func c12_genC12(repo string) string {
 	}
 	sort.Strings(exports)
 
+	// ---- the OS implementation risor ships for hosts: direct sinks in its own bodies
+	vents := map[string]*c12Entry{}
+	vfiles := map[string]bool{"virtual.go": true, "nil_file.go": true, "buffer_file.go": true, "in_memory_file.go": true}
+	for _, f := range c12ParseDir(fset, filepath.Join(repo, "os"), func(n string) bool { return vfiles[n] }) {
+		c12ScanFile(fset, "os", f, vents)
+		// inside package os the real implementation is reachable without a package qualifier
+		for _, d := range f.Decls {
+			fd, ok := d.(*ast.FuncDecl)
+			if !ok || fd.Body == nil {
+				continue
+			}
+			name := fd.Name.Name
+			if fd.Recv != nil && len(fd.Recv.List) == 1 {
+				name = strings.TrimPrefix(c12Str(fset, fd.Recv.List[0].Type), "*") + "." + name
+			}
+			key := "os." + name
+			ast.Inspect(fd.Body, func(n ast.Node) bool {
+				if id, ok := n.(*ast.Ident); ok && id.Obj == nil && (id.Name == "NewSimpleOS" || id.Name == "SimpleOS") {
+					if vents[key] == nil {
+						vents[key] = &c12Entry{fn: key, direct: map[string]bool{}, mediated: map[string]bool{}, recvOK: true}
+					}
+					vents[key].direct["risoros."+id.Name] = true
+				}
+				return true
+			})
+		}
+	}
+	var vkeys []string
+	for k, e := range vents {
+		if len(e.direct) > 0 {
+			vkeys = append(vkeys, k)
+		}
+	}
+	sort.Strings(vkeys)
+
 	keys := make([]string, 0, len(ents))
 	for k := range ents {
 		keys = append(keys, k)
@@ -457,6 +498,16 @@ func c12_genC12(repo string) string {
 	}
 	b.WriteString("]\n\n/-- every script-visible function/attribute of the os, filepath and fmt modules (their `Module()` and\n    `Builtins()` tables) with the Go function behind it -/\n")
 	b.WriteString("def exports : List (String × String) := [\n  " + strings.Join(exports, ",\n  ") + "\n]\n")
+	b.WriteString("\n/-- functions of os/virtual.go, os/nil_file.go, os/buffer_file.go, os/in_memory_file.go whose body uses\n    an OS-touching member of a Go package (or risor's SimpleOS), with those members -/\n")
+	b.WriteString("def virtualSinks : List (String × List String) := [\n")
+	for i, k := range vkeys {
+		sep := ","
+		if i == len(vkeys)-1 {
+			sep = ""
+		}
+		b.WriteString(fmt.Sprintf("  (%s, %s)%s\n", strconv.Quote(strings.TrimPrefix(k, "os.")), strList(vents[k].direct), sep))
+	}
+	b.WriteString("]\n")
 	b.WriteString("\nend Risor.Generated.C12\n")
 	return b.String()
 }
